@@ -69,7 +69,7 @@ def within(scn, u, d):
     return two
 
 
-def callbacks(scn, log):
+def callbacks(scn, log, infl_kind="set"):
     rules = {r["from"]: r for r in scn["rules"]}
 
     def rate_function(G, node, status, parameters):
@@ -89,7 +89,14 @@ def callbacks(scn, log):
 
     def get_influence_set(G, node, status, parameters):
         log.append(("influence", node))
-        return within(scn, node, scn["infl"])
+        w = within(scn, node, scn["infl"])
+        if infl_kind == "list":
+            return sorted(w)
+        if infl_kind == "iterator":      # e.g. `return G.neighbors(node)`: a one-shot iterator
+            return iter(sorted(w))
+        if infl_kind == "generator":
+            return (x for x in sorted(w))
+        return w
     return rate_function, transition_choice, get_influence_set
 
 
@@ -112,7 +119,7 @@ def run_scenario(task):
     tmin = task.get("tmin", 0)
     tmax = tmin + horizon + 0.5
     log = []
-    rf, tc, gi = callbacks(scn, log)
+    rf, tc, gi = callbacks(scn, log, task.get("infl_kind", "set"))
 
     def fn_full():
         del log[:]
